@@ -1,7 +1,11 @@
 package checks
 
 import (
+	"bytes"
+	"encoding/json"
 	"fmt"
+	"math"
+	"strconv"
 	"strings"
 	"time"
 
@@ -88,6 +92,14 @@ func c18OpList(r *fw.Rand, tag string) []*operation.AnchoredOperation {
 			UniqueSuffix: "EiSuffix", OperationRequest: []byte(fmt.Sprintf("%s-op-%d-%d", tag, i, r.Intn(1<<30))),
 			TransactionTime: uint64(r.Intn(4)), TransactionNumber: uint64(r.Intn(4)), ProtocolVersion: uint64(r.Intn(3)),
 			CanonicalReference: fmt.Sprintf("ref%d", r.Intn(6))}
+		if r.Chance(1, 5) {
+			// times and numbers are unsigned 64-bit values: the order holds over the whole range
+			huge := []uint64{0, 1, 1 << 31, 1 << 32, 1<<63 - 1, 1 << 63, 1<<63 + 1, math.MaxUint64 - 1, math.MaxUint64}
+			op.TransactionTime = fw.Pick(r, huge)
+			if r.Bool() {
+				op.TransactionNumber = fw.Pick(r, huge)
+			}
+		}
 		if r.Chance(1, 3) {
 			op.EquivalentReferences = []string{"eq1", "eq2"}
 		}
@@ -103,8 +115,15 @@ func opKey(o *operation.AnchoredOperation) string { return string(o.OperationReq
 
 // c18CheckOps verifies the emitted operation list against the input list.
 func c18CheckOps(emitted interface{}, input []*operation.AnchoredOperation, dedup bool, hasNumber bool) string {
-	g, err := oracle.Generic(emitted)
+	// decoded with exact integers: times and numbers are 64-bit values
+	eb, err := json.Marshal(emitted)
 	if err != nil {
+		return "emitted list not JSON"
+	}
+	var g interface{}
+	dec := json.NewDecoder(bytes.NewReader(eb))
+	dec.UseNumber()
+	if err := dec.Decode(&g); err != nil {
 		return "emitted list not JSON"
 	}
 	l, _ := g.([]interface{})
@@ -146,13 +165,11 @@ func c18CheckOps(emitted interface{}, input []*operation.AnchoredOperation, dedu
 				return "canonical reference not reported"
 			}
 		}
-		t, _ := oracle.Num(m["transactionTime"])
-		if uint64(t) != src.TransactionTime || m["type"] != string(src.Type) {
+		if fmt.Sprint(m["transactionTime"]) != strconv.FormatUint(src.TransactionTime, 10) || m["type"] != string(src.Type) {
 			return fmt.Sprintf("operation %d misreported (time/type)", i)
 		}
 		if hasNumber {
-			n, _ := oracle.Num(m["transactionNumber"])
-			if uint64(n) != src.TransactionNumber {
+			if fmt.Sprint(m["transactionNumber"]) != strconv.FormatUint(src.TransactionNumber, 10) {
 				return fmt.Sprintf("operation %d misreported (number)", i)
 			}
 		}
